@@ -12,6 +12,7 @@ import (
 	"regexp"
 	"sort"
 	"strings"
+	"sync"
 
 	"golang.org/x/tools/go/ssa"
 )
@@ -642,6 +643,10 @@ type enumerator struct {
 	expandPanics bool
 	expandAll    bool
 	hdrMemo      map[*ssa.BasicBlock]*ssa.BasicBlock
+	// callResults: the results of an expanded helper print, after the call, as what
+	// the helper returned on the path taken through it
+	callResults bool
+	retCanon    []string
 }
 
 type pathState struct {
@@ -659,6 +664,8 @@ type pathState struct {
 	// concrete: blocks whose branch the path decided by integer evaluation (headers
 	// of loops over literal tables: these may be unrolled)
 	concrete map[*ssa.BasicBlock]bool
+	// callRes: canonical results of helpers expanded on this path (enumerator.callResults)
+	callRes map[*ssa.Call][]string
 }
 
 type memKey struct {
@@ -963,6 +970,20 @@ func (e *enumerator) walkFn(fn *ssa.Function, ev []string, depth int, k func(ev 
 								delete(st.callTerm, t)
 							}
 						}()
+						if e.callResults && ret != nil && len(e.retCanon) > 0 {
+							if st.callRes == nil {
+								st.callRes = map[*ssa.Call][]string{}
+							}
+							oldRes, hadRes := st.callRes[t]
+							st.callRes[t] = append([]string(nil), e.retCanon...)
+							defer func() {
+								if hadRes {
+									st.callRes[t] = oldRes
+								} else {
+									delete(st.callRes, t)
+								}
+							}()
+						}
 						// continue the caller after the call, outside the callee's environment
 						// (a copy: appending to the truncated slice would overwrite the
 						// callee's frame, which is needed again for its other paths)
@@ -991,24 +1012,20 @@ func (e *enumerator) walkFn(fn *ssa.Function, ev []string, depth int, k func(ev 
 					}
 				}
 			case *ssa.Store:
-				// a write into a local array / slice at a concrete index
-				if ia, isIA := t.Addr.(*ssa.IndexAddr); isIA {
-					if base := localArrayBase(ia.X); base != nil {
-						if ix, okI := e.evalInt(ia.Index, st, 0); okI {
-							key := memKey{base, ix}
-							old, had := st.mem[key]
-							rv := e.resolve(t.Val, st)
-							e.w.cur = &pathCtxt{st: st, eval: e.eval}
-							st.mem[key] = memVal{rv, e.w.canonOnPathFallible(rv)}
-							defer func() {
-								if had {
-									st.mem[key] = old
-								} else {
-									delete(st.mem, key)
-								}
-							}()
+				// a write into a local array / slice at a concrete index, or into a
+				// local variable that only this function reads and writes
+				if key, isCell := cellKeyOfAddr(t.Addr, st); isCell {
+					old, had := st.mem[key]
+					rv := e.resolve(t.Val, st)
+					e.w.cur = &pathCtxt{st: st, eval: e.eval}
+					st.mem[key] = memVal{rv, e.w.canonOnPathFallible(rv)}
+					defer func() {
+						if had {
+							st.mem[key] = old
+						} else {
+							delete(st.mem, key)
 						}
-					}
+					}()
 				}
 			case *ssa.Defer:
 				st.defers = append(st.defers, t)
@@ -1057,6 +1074,14 @@ func (e *enumerator) walkFn(fn *ssa.Function, ev []string, depth int, k func(ev 
 				e.retErr = nil
 				if idx := errResultIndex(fn); idx >= 0 && idx < len(t.Results) {
 					e.retErr = e.resolve(stripConv(retResult(t, idx)), st)
+				}
+				e.retCanon = nil
+				if e.callResults && depth > 0 && len(t.Results) <= 4 {
+					// what the helper hands back on this path, in the caller's terms
+					e.w.cur = &pathCtxt{st: st, eval: e.eval}
+					for idx := range t.Results {
+						e.retCanon = append(e.retCanon, e.w.canonResolved(e.resolve(stripConv(retResult(t, idx)), st)))
+					}
 				}
 				k(ev, t, e.termOf(t, st, fn))
 				return
@@ -1267,6 +1292,86 @@ func memCellOf(v ssa.Value) (ssa.Value, ssa.Value, bool) {
 	return nil, nil, false
 }
 
+// cellKeyOfAddr: the cell of path memory an address denotes — an element of a
+// local aggregate at an index the path fixes, or a local variable that is only
+// stored to and loaded from directly in its function (e.g. a named result that a
+// defer keeps in memory).
+func cellKeyOfAddr(addr ssa.Value, st *pathState) (memKey, bool) {
+	switch a := addr.(type) {
+	case *ssa.IndexAddr:
+		if base := localArrayBase(a.X); base != nil {
+			if ix, ok := evalIntSt(a.Index, st, 0); ok {
+				return memKey{base, ix}, true
+			}
+		}
+	case *ssa.Alloc:
+		if privateScalar(a) {
+			return memKey{a, -1}, true
+		}
+	}
+	return memKey{}, false
+}
+
+var privateScalarMemo sync.Map
+
+// privateScalar: a local that is not an aggregate and whose address is used for
+// nothing but direct stores and loads.
+func privateScalar(a *ssa.Alloc) bool {
+	if v, ok := privateScalarMemo.Load(a); ok {
+		return v.(bool)
+	}
+	ok := true
+	switch deref(a.Type()).Underlying().(type) {
+	case *types.Array, *types.Struct:
+		ok = false
+	}
+	if refs := a.Referrers(); refs == nil {
+		ok = false
+	} else {
+		for _, r := range *refs {
+			switch x := r.(type) {
+			case *ssa.Store:
+				if x.Addr != a || x.Val == ssa.Value(a) {
+					ok = false
+				}
+			case *ssa.UnOp:
+				if x.Op != token.MUL {
+					ok = false
+				}
+			case *ssa.DebugRef:
+			default:
+				ok = false
+			}
+		}
+	}
+	privateScalarMemo.Store(a, ok)
+	return ok
+}
+
+// loadCell: what the path stored in the cell that v loads, if anything.
+func loadCell(v ssa.Value, st *pathState) (memVal, bool) {
+	if st == nil || len(st.mem) == 0 {
+		return memVal{}, false
+	}
+	switch x := v.(type) {
+	case *ssa.UnOp:
+		if x.Op == token.MUL {
+			if key, ok := cellKeyOfAddr(x.X, st); ok {
+				mv, ok := st.mem[key]
+				return mv, ok
+			}
+		}
+	case *ssa.Index:
+		if base, idx, isCell := memCellOf(x); isCell {
+			if ix, ok := evalIntSt(idx, st, 0); ok {
+				mv, ok := st.mem[memKey{base, ix}]
+				return mv, ok
+			}
+		}
+	}
+	return memVal{}, false
+}
+
 // localArrayBase: the local aggregate (array alloc, make([]T, n)) an indexed
 // address refers to, through slicing of the whole array; nil for anything else.
 func localArrayBase(v ssa.Value) ssa.Value {
@@ -1408,17 +1513,10 @@ func isBoolType(t types.Type) bool {
 // resolve replaces a phi by the value of the edge the current path came by.
 func (e *enumerator) resolve(v ssa.Value, st *pathState) ssa.Value {
 	for i := 0; i < 8; i++ {
-		// a load from a local array cell written on this path
-		if st != nil && len(st.mem) > 0 {
-			if base, idx, isCell := memCellOf(v); isCell {
-				if ix, okI := e.evalInt(idx, st, 0); okI {
-					if mv, ok := st.mem[memKey{base, ix}]; ok {
-						v = mv.v
-						continue
-					}
-				}
-				return v
-			}
+		// a load from a local cell written on this path
+		if mv, ok := loadCell(v, st); ok && mv.v != v {
+			v = mv.v
+			continue
 		}
 		ph, ok := v.(*ssa.Phi)
 		if !ok {
@@ -1494,6 +1592,13 @@ func (w *World) evalBool(v ssa.Value, st *pathState, eval func(ssa.Value) (bool,
 				}
 				if b, ok := eval(v); ok {
 					return b, true
+				}
+				// a local variable the path assigned
+				if mv, ok := loadCell(stripConv(pr[0]), st); ok && mv.v != pr[0] {
+					pr[0] = mv.v
+					if c, isC := stripConv(mv.v).(*ssa.Const); isC && c.IsNil() {
+						return x.Op == token.EQL, true
+					}
 				}
 				// the error result of a callee that was expanded on this path
 				if st != nil && st.callTerm != nil {
@@ -1755,16 +1860,10 @@ func (w *World) ResolveOnPath(v ssa.Value) ssa.Value {
 
 func (w *World) resolveValue(v ssa.Value, st *pathState, eval func(ssa.Value) (bool, bool), depth int) ssa.Value {
 	for i := 0; i < 12; i++ {
-		// a cell of a local array written on this path
-		if st != nil && len(st.mem) > 0 {
-			if base, idx, isCell := memCellOf(v); isCell {
-				if ix, ok := evalIntSt(idx, st, 0); ok {
-					if mv, ok := st.mem[memKey{base, ix}]; ok && mv.v != v {
-						v = mv.v
-						continue
-					}
-				}
-			}
+		// a local cell written on this path
+		if mv, ok := loadCell(v, st); ok && mv.v != v {
+			v = mv.v
+			continue
 		}
 		switch x := v.(type) {
 		case *ssa.Phi:
